@@ -305,9 +305,10 @@ class HTTPConnectionPool(ConnectionPool, RequestMethods):
 
         If the pool is closed, then the connection will be closed and discarded.
         """
-        if self.pool is not None:
+        pool = self.pool
+        if pool is not None:
             try:
-                self.pool.put(conn, block=False)
+                pool.put(conn, block=False)
                 return  # Everything is dandy, done.
             except AttributeError:
                 # self.pool is None.
@@ -327,7 +328,7 @@ class HTTPConnectionPool(ConnectionPool, RequestMethods):
                 log.warning(
                     "Connection pool is full, discarding connection: %s. Connection pool size: %s",
                     self.host,
-                    self.pool.qsize(),
+                    pool.qsize(),
                 )
 
         # Connection never got put back into the pool, close it.
